@@ -379,3 +379,142 @@ Theorem C17_ipower_negative :
 Proof. exact C17_ipower_negative_lemma. Qed.
 Print Assumptions C17_ipower_negative.
 
+(* ================= second proof-deepening round ================= *)
+Local Open Scope Z_scope.
+(* ---- power, integral Base, p >= 0: guarded on the FINAL value only -- the exact value whenever m^p is representable
+        (m a value of the type, Base(1) representable); the converse for signed types: not representable => result is not m^p ---- *)
+Theorem C17_power_final :
+  forall (t : c17_ity) (m p : Z),
+  0 <= p -> c17_inrange t 1 = true -> c17_inrange t m = true -> c17_inrange t (m ^ p) = true ->
+  c17_ipower t m p = C17_Val (m ^ p).
+Proof. exact C17_power_final_lemma. Qed.
+Print Assumptions C17_power_final.
+
+Theorem C17_power_final_converse :
+  forall (t : c17_ity) (m p : Z),
+  c17_signed t = true -> c17_inrange t 1 = true -> c17_inrange t (m ^ p) = false -> c17_ipower t m p <> C17_Val (m ^ p).
+Proof. exact C17_power_final_converse_lemma. Qed.
+Print Assumptions C17_power_final_converse.
+
+Example C17_power_final_nonvacuous :
+  c17_inrange (C17_Ity true 32) ((-2) ^ 31) = true /\ c17_ipower (C17_Ity true 32) (-2) 31 = C17_Val (-2147483648) /\
+  c17_inrange (C17_Ity true 32) (2 ^ 31) = false /\ c17_ipower (C17_Ity true 32) 2 31 = C17_UB.
+Proof. repeat split; vm_compute; reflexivity. Qed.
+
+(* ---- width guards, every integer type of the property (signed / unsigned, 8 / 16 / 32 / 64 bit):
+        factorial exact for n <= 5,5,7,8,12,12,20,20 and not beyond; binomial (fixed code) exact for all k and n <= 9,10,17,18,33,34,66,67
+        and C(n+1, (n+1)/2) not representable (bounds are in the statements: c17_fact_limits, c17_binom_limits) ---- *)
+Theorem C17_factorial_widths :
+  forallb (fun tl => let t := fst tl in let l := snd tl in
+     forallb (fun n => c17_is_val (c17_factorial t n) (c17_spec_factorial n)) (c17_range l)
+     && negb (c17_inrange t (c17_spec_factorial (l + 1)))
+     && negb (c17_is_val (c17_factorial t (l + 1)) (c17_spec_factorial (l + 1))))
+    (combine c17_all_types c17_fact_limits) = true.
+Proof. exact C17_factorial_widths_lemma. Qed.
+Print Assumptions C17_factorial_widths.
+
+Theorem C17_binomial_widths :
+  forallb (fun tl => let t := fst tl in let l := snd tl in
+     forallb (fun n => forallb (fun k => c17_is_val (c17_binomial_fix t n (k - 1)) (c17_spec_binomial_fast n (k - 1))
+                                         || negb (c17_inrange t (k - 1)))
+                               (c17_range (n + 2))) (c17_range l)
+     && negb (c17_inrange t (c17_spec_binomial_fast (l + 1) ((l + 1) / 2))))
+    (combine c17_all_types c17_binom_limits) = true.
+Proof. exact C17_binomial_widths_lemma. Qed.
+Print Assumptions C17_binomial_widths.
+
+Theorem C17_sign_types :
+  forall (t : c17_ity) (v : Z),
+  (c17_isign v = -1 \/ c17_isign v = 1) /\ (c17_signed t = false -> c17_inrange t v = true -> c17_isign v = 1).
+Proof. exact C17_sign_types_lemma. Qed.
+Print Assumptions C17_sign_types.
+
+(* the literals of math.hh (sign: -1 / 1; binomial(ic<n>, ic<n>): 1 / 0) re-read from the source agree with the model *)
+Theorem C17_source_literals :
+  (forall v : Z, c17_isign_src v = c17_isign v) /\
+  (forall n : Z, c17_binomial_nn_src n = if 0 <=? n then 1 else 0) /\
+  (forall (t : c17_ity) (n : Z), c17_inrange t 0 = true -> c17_inrange t n = true -> c17_inrange t 1 = true ->
+     c17_binomial_fix t n n = C17_Val (c17_binomial_nn_src n)).
+Proof. exact C17_source_literals_lemma. Qed.
+Print Assumptions C17_source_literals.
+Local Close Scope Z_scope.
+
+(* ---- classifiers on FieldVector<std::complex<K>,n> and isUnordered (every format): any / all over ALL real and imaginary parts;
+        isFinite is not the negation of isInf ---- *)
+Theorem C17_classifiers_complex_vector :
+  forall (prec emax : Z) (v : list (binary_float prec emax * binary_float prec emax)) (a b : binary_float prec emax),
+  c17_vcisnan prec emax v = existsb (@is_nan prec emax) (c17_flat prec emax v) /\
+  c17_vcisinf prec emax v = existsb (@c17_isinf prec emax) (c17_flat prec emax v) /\
+  c17_vcisfinite prec emax v = forallb (@is_finite prec emax) (c17_flat prec emax v) /\
+  c17_isunordered prec emax a b = (is_nan a || is_nan b) /\
+  c17_visunordered1 prec emax a b = (is_nan a || is_nan b) /\
+  (c17_cisfinite prec emax B754_nan a = false /\ c17_cisinf prec emax B754_nan (B754_zero false) = false).
+Proof. exact C17_classifiers_complex_vector_lemma. Qed.
+Print Assumptions C17_classifiers_complex_vector.
+
+(* ---- FloatCmpOps<T,cstyle_,rstyle_>: every member is the free function at the object's (cstyle_, rstyle_, epsilon_);
+        epsilon(e) / epsilon(); default constructor; the comparison algebra for the member forms (every format) ---- *)
+Theorem C17_ops_forwarding :
+  forall (prec emax : Z) (Hp : Prec_gt_0 prec) (Hm : Prec_lt_emax prec emax)
+         (o : c17_ops prec emax) (e : binary_float prec emax) (t : c17_ity) (a b v : binary_float prec emax),
+  c17_ops_eq prec emax Hp Hm o a b = c17_eq prec emax Hp Hm (c17_ops_cstyle prec emax o) (c17_ops_eps prec emax o) a b /\
+  c17_ops_ne prec emax Hp Hm o a b = c17_ne prec emax Hp Hm (c17_ops_cstyle prec emax o) (c17_ops_eps prec emax o) a b /\
+  c17_ops_gt prec emax Hp Hm o a b = c17_gt prec emax Hp Hm (c17_ops_cstyle prec emax o) (c17_ops_eps prec emax o) a b /\
+  c17_ops_lt prec emax Hp Hm o a b = c17_lt prec emax Hp Hm (c17_ops_cstyle prec emax o) (c17_ops_eps prec emax o) a b /\
+  c17_ops_ge prec emax Hp Hm o a b = c17_ge prec emax Hp Hm (c17_ops_cstyle prec emax o) (c17_ops_eps prec emax o) a b /\
+  c17_ops_le prec emax Hp Hm o a b = c17_le prec emax Hp Hm (c17_ops_cstyle prec emax o) (c17_ops_eps prec emax o) a b /\
+  c17_ops_round prec emax Hp Hm o t v =
+    c17_round_fix prec emax Hp Hm (c17_ops_rstyle prec emax o) t (c17_ops_cstyle prec emax o) (c17_ops_eps prec emax o) v /\
+  c17_ops_trunc prec emax Hp Hm o t v =
+    c17_trunc_fix prec emax Hp Hm (c17_ops_rstyle prec emax o) t (c17_ops_cstyle prec emax o) (c17_ops_eps prec emax o) v /\
+  c17_ops_eps prec emax (c17_ops_set_eps prec emax o e) = e /\
+  c17_ops_cstyle prec emax (c17_ops_set_eps prec emax o e) = c17_ops_cstyle prec emax o /\
+  c17_ops_rstyle prec emax (c17_ops_set_eps prec emax o e) = c17_ops_rstyle prec emax o /\
+  (forall cs rs, c17_ops_eps prec emax (c17_ops_default prec emax Hp Hm cs rs) = c17_default_eps prec emax Hp Hm cs).
+Proof. exact C17_ops_forwarding_lemma. Qed.
+Print Assumptions C17_ops_forwarding.
+
+Theorem C17_ops_algebra :
+  forall (prec emax : Z) (Hp : Prec_gt_0 prec) (Hm : Prec_lt_emax prec emax) (o : c17_ops prec emax) (a b : binary_float prec emax),
+  is_finite a = true -> is_finite b = true -> is_finite (c17_ops_eps prec emax o) = true -> (0 <= B2R (c17_ops_eps prec emax o))%R ->
+  c17_ops_eq prec emax Hp Hm o a b = c17_ops_eq prec emax Hp Hm o b a /\
+  c17_cmp_laws (c17_flt prec emax a b) (c17_fgt prec emax a b)
+    (c17_ops_eq prec emax Hp Hm o a b) (c17_ops_ne prec emax Hp Hm o a b) (c17_ops_gt prec emax Hp Hm o a b)
+    (c17_ops_lt prec emax Hp Hm o a b) (c17_ops_ge prec emax Hp Hm o a b) (c17_ops_le prec emax Hp Hm o a b) = true.
+Proof. exact C17_ops_algebra_lemma. Qed.
+Print Assumptions C17_ops_algebra.
+
+(* the object's styles matter (a member ignoring cstyle_ / rstyle_ gives a different answer on these inputs) *)
+Example C17_ops_styles_matter :
+  let eps := c17_ex_f64' 0x3fa999999999999a in
+  let i32 := C17_Ity true 32 in
+  c17_ops_trunc 53 1024 c17_Hprec64 c17_Hmax64 (C17_Ops 53 1024 C17_RelWeak C17_Downward eps) i32 (c17_ex_f64' 0x4007333333333333) = C17_Val 3%Z /\
+  c17_ops_trunc 53 1024 c17_Hprec64 c17_Hmax64 (C17_Ops 53 1024 C17_Absolute C17_Downward eps) i32 (c17_ex_f64' 0x4007333333333333) = C17_Val 2%Z /\
+  c17_ops_round 53 1024 c17_Hprec64 c17_Hmax64 (C17_Ops 53 1024 C17_Absolute C17_Downward eps) i32 (c17_ex_f64' 0x4004000000000000) = C17_Val 2%Z /\
+  c17_ops_round 53 1024 c17_Hprec64 c17_Hmax64 (C17_Ops 53 1024 C17_Absolute C17_Upward eps) i32 (c17_ex_f64' 0x4004000000000000) = C17_Val 3%Z.
+Proof. exact C17_ops_styles_matter_lemma. Qed.
+
+(* ---- trunc with epsilon 0 (every style, rounding style, format): exactly floor resp. ceiling of val -- no tolerance left ---- *)
+Theorem C17_trunc_eps0 :
+  forall (prec emax : Z) (Hp : Prec_gt_0 prec) (Hm : Prec_lt_emax prec emax)
+         (r : c17_rstyle) (t : c17_ity) (s : c17_cstyle) (eps val : binary_float prec emax),
+  is_finite eps = true -> B2R eps = 0%R -> is_finite val = true ->
+  c17_inrange t (Zfloor (B2R val)) = true -> (IZR (Zfloor (B2R val)) <> B2R val -> c17_inrange t (Zfloor (B2R val) + 1) = true) ->
+  c17_trunc_fix prec emax Hp Hm r t s eps val =
+    C17_Val (if c17_dir_down prec emax r val then Zfloor (B2R val) else Zceil (B2R val)).
+Proof. exact C17_trunc_eps0_lemma. Qed.
+Print Assumptions C17_trunc_eps0.
+
+(* ---- round at an exact tie val = k + 1/2 (cast value not tolerantly equal to val, both neighbours values of I):
+        k in the downward direction, k + 1 in the upward direction ---- *)
+Theorem C17_round_exact_tie :
+  forall (prec emax : Z) (Hp : Prec_gt_0 prec) (Hm : Prec_lt_emax prec emax)
+         (up : bool) (t : c17_ity) (s : c17_cstyle) (eps val : binary_float prec emax) (z : Z),
+  c17_round_post prec emax Hp Hm up t s eps val z ->
+  (B2R val - IZR (Zfloor (B2R val)) = 1 / 2)%R ->
+  c17_eq prec emax Hp Hm s eps (c17_of_Z prec emax Hp Hm (Ztrunc (B2R val))) val = false ->
+  c17_inrange t (Zfloor (B2R val)) = true -> c17_inrange t (Zfloor (B2R val) + 1) = true ->
+  z = if up then (Zfloor (B2R val) + 1)%Z else Zfloor (B2R val).
+Proof. exact C17_round_exact_tie_lemma. Qed.
+Print Assumptions C17_round_exact_tie.
+
